@@ -127,7 +127,9 @@ func (p *planner) plan(operation, operationName string, variables []byte) (*rpla
 		astnormalization.WithPrevalidationRules(
 			astvalidation.DeferStreamOnValidOperations(),
 			astvalidation.DeferStreamHaveUniqueLabels(),
+			astvalidation.DirectivesAreDefined(),
 			astvalidation.DirectivesAreInValidLocations(),
+			astvalidation.DirectivesAreUniquePerLocation(),
 			astvalidation.StreamAppliedToListFieldsOnly()))
 	if err != nil {
 		return nil, err
